@@ -353,6 +353,17 @@ Proof.
   inversion H. subst k. split; [ reflexivity |]. apply size_ok_sound; exact E.
 Qed.
 
+Lemma array_append_elem_sound : forall free l k,
+  0 <= l -> l + 1 <= max_int ->
+  array_append_elem free l = Val k ->
+  k = l + 1 /\ (k <= small_size \/ k * object_ObjectSize < free).
+Proof.
+  intros free l k Hl Hs H. unfold array_append_elem, must_be_ok in H.
+  rewrite wrap64_id in H by (unfold in_int64, min_int, max_int, two63 in *; lia).
+  destruct (size_ok free (l + 1)) eqn:E; simpl in H; [| discriminate].
+  inversion H. subst k. split; [ reflexivity |]. apply size_ok_sound; exact E.
+Qed.
+
 (* as pinned there is no bound at all: doubling a 256 MiB string is accepted with 1 byte free *)
 Lemma string_concat_pinned_unguarded : string_concat_pinned 1 268435456 268435456 = Val 536870912.
 Proof. reflexivity. Qed.
